@@ -48,8 +48,17 @@ fn c03_k_float_kernel_is_exact() {
 #[kani::proof]
 #[kani::stub(robust::orient2d, robust_orient2d_model)]
 #[kani::stub(crate::algorithm::line_intersection::proper_intersection, proper_intersection_model)]
-fn c11_k_classification() {
-    let ((a, sa), (b, sb), (c, sc), (d, sd)) = (lat_coord_f64_16(LAT11), lat_coord_f64_16(LAT11), lat_coord_f64_16(LAT11), lat_coord_f64_16(LAT11));
+fn c11_k_classification_lat3() { body_classification(3); }
+
+#[cfg(kani)]
+#[kani::proof]
+#[kani::stub(robust::orient2d, robust_orient2d_model)]
+#[kani::stub(crate::algorithm::line_intersection::proper_intersection, proper_intersection_model)]
+fn c11_k_classification_lat5() { body_classification(LAT11); }
+
+#[cfg(kani)]
+fn body_classification(lat: i16) {
+    let ((a, sa), (b, sb), (c, sc), (d, sd)) = (lat_coord_f64_16(lat), lat_coord_f64_16(lat), lat_coord_f64_16(lat), lat_coord_f64_16(lat));
     kani::assume(sa != sb && sc != sd);
     let (p, q) = (Line::new(a, b), Line::new(c, d));
     let r = line_intersection(p, q);
@@ -105,8 +114,9 @@ fn c11_k_classification() {
 
 /// contract standing in for `proper_intersection` in the classification harness (its own harness is below)
 #[cfg(kani)]
-fn proper_intersection_model(p: Line<f64>, q: Line<f64>) -> Coord<f64> {
-    Coord { x: kani::any(), y: kani::any() }
+fn proper_intersection_model<F: GeoFloat>(p: Line<F>, _q: Line<F>) -> Coord<F> {
+    // the classification / order harnesses do not look at the coordinates of a PROPER point
+    p.start
 }
 
 // ---- the outcome does not depend on the order of the two segments -------------------------------
